@@ -22,7 +22,7 @@ META = {
             'duplicate qualifier keys, conan/swift/cran custom rules) are lost by both importers and are outside the property\'s domain (malformed stream).',
 }
 THEOREMS = ['Scalibr.Sbom.C15_spdx_partial', 'Scalibr.Sbom.C15_cdx_partial', 'Scalibr.Sbom.C15_spdx_at', 'Scalibr.Sbom.C15_cdx_at',
-            'Scalibr.Sbom.C15_constant_norm_excluded', 'Scalibr.Sbom.C15_spdx_nonwrapper_imported', 'Scalibr.Sbom.specNorm_fields',
+            'Scalibr.Sbom.C15_constant_norm_excluded', 'Scalibr.Sbom.C15_evil_type_excluded', 'Scalibr.Sbom.C15_qualifier_rewrite_excluded', 'Scalibr.Sbom.C15_spdx_nonwrapper_imported', 'Scalibr.Sbom.specNorm_fields',
             'Scalibr.Sbom.C15_spdx_general', 'Scalibr.Sbom.C15_spdx', 'Scalibr.Sbom.C15_spdx_hasPurl',
             'Scalibr.Sbom.C15_cdx_general', 'Scalibr.Sbom.C15_cdx', 'Scalibr.Sbom.C15_inventory_order',
             'Scalibr.Sbom.C15_codec_failure', 'Scalibr.Sbom.C15_codec_failure_cdx',
@@ -32,7 +32,7 @@ THEOREMS = ['Scalibr.Sbom.C15_spdx_partial', 'Scalibr.Sbom.C15_cdx_partial', 'Sc
             'Scalibr.Sbom.C15_unparsable_lost', 'Scalibr.Sbom.spdx_doc_import', 'Scalibr.Sbom.cdx_doc_import',
             'Scalibr.Sbom.specPurls_eq_specNorm', 'Scalibr.Sbom.lostOf_zero']
 
-PER_PKG = 15   # tokens per package in a case line (lean/Drivers/C15.lean)
+PER_PKG = 19   # tokens per package in a case line (lean/Drivers/C15.lean)
 
 
 def unhs(t):
@@ -83,7 +83,8 @@ def run(ctx):
     ctx.assumptions = ['the codec hypothesis of C15_spdx_partial / C15_cdx_partial is POINTWISE: decode (encode (toSpdx inv)) = some (toSpdx inv) for the inventory at hand (tools-golang json/yaml/tagvalue, '
                        'cyclonedx-go JSON/XML); it is ASSUMED, validated differentially only (false for tag-value always, for YAML on DEL/C1/non-characters: known findings). The older `∀ d` form '
                        '(Codec.roundtrips, C15_spdx / C15_cdx) is kept for the identity-codec examples only',
-                       'NormLaws (norm idempotent, version untouched, name equal up to case and _ . - folding) constrains the purl normalisation in the theorems; c15gen checks packageurl-go\'s print-then-parse against it on every generated purl — and, component by component, that nothing else is lost (every qualifier value, the sub-path, the namespace) — and exits 3 on a violation',
+                       'NormLaws (norm idempotent, version untouched, name equal up to case and _ . - folding, TYPE only lower-cased, namespace up to case / empty segments, every qualifier value kept, sub-path up to empty/./.. segments; accessors: Spec PurlFields) constrains the purl normalisation in the theorems; c15gen checks packageurl-go\'s print-then-parse against it on every generated purl — and, component by component, that nothing else is lost (every qualifier value, the sub-path, the namespace) — and exits 3 on a violation',
+                       'Lean canonName / lowerL fold ASCII case only: the driver judges rows whose name, namespace or type hold a non-ASCII character by the fold-free laws (version, qualifier values, sub-path); packageurl-go lower-cases with strings.ToLower (e.g. U+0130 -> i in an alpm name)',
                        'the SPDX wrapper package is identified structurally (DESCRIBES target, no external reference), never by name: C15_spdx_nonwrapper_imported',
                        'ops.parse "" = none (purl.FromString("") fails) in the CycloneDX theorems',
                        'uuid.New()/time.Now() are an arbitrary Env; they do not reach the observable',
@@ -98,6 +99,7 @@ def run(ctx):
         proofs_ok = ctx.leanchecker('Scalibr.Properties.C15') and proofs_ok
     n = {'quick': 1000, 'thorough': 20000}[ctx.tier]
     types = {}
+    judged = {'all': {}, 'positively': {}}   # per format: cases, and cases in which every oracle clause up to the purl comparison held
 
     def nontrivial(case, fi, fm):
         return any(f[4] == '1' for f in packages(case))
@@ -119,11 +121,23 @@ def run(ctx):
             return 'format %s: scanning the written file returned purls %s, the exported packages\' normalised purls are %s' % (fmt, fi.get('purls', '')[:300], fm['spec'][:300])
         if stream != 'malformed' and fm.get('wf') != '1':
             return 'stream %s: %s exported purl(s) of an in-domain inventory cannot be parsed back by purl.FromString and are lost' % (stream, fm.get('lost'))
+        if fm.get('laws') == '0':
+            return ('the purl library breaks NormLaws on this inventory (print-then-parse changed a version, a name beyond case/separator folding, the TYPE beyond its case, '
+                    'a namespace, a qualifier value or the sub-path): the normal forms the oracle compares with are not "the same purl up to type normalisation"')
+        judged['positively'][fmt] = judged['positively'].get(fmt, 0) + 1
+        if fmt.startswith('spdx') and fm.get('specall') not in (None, fm['spec']):
+            return ('format %s: %d package(s) whose purl has no version (or no name) are not exported at all (ToSPDX23 "PURL name or version empty, skipping"); '
+                    'the scan of the written file returns %s, the inventory\'s purls are %s' % (fmt, len(fm['specall'].split(',')) - (len(fm['spec'].split(',')) if fm['spec'] != '-' else 0),
+                                                                                            fm['spec'][:200], fm['specall'][:200]))
         return None
 
     def finding_class(case, fi, fm):
         t = case.split(' ')
         fmt, st = t[2], fi.get('st', fi.get('_'))
+        judged['all'][fmt] = judged['all'].get(fmt, 0)   # (counted in classify)
+        if fmt in ('spdx23-json', 'spdx23-yaml') and st == 'ok' and fi.get('purls') == fm.get('spec') and fm.get('specall') not in (None, fm.get('spec')) \
+                and fm.get('laws') != '0' and (t[1] == 'malformed' or fm.get('wf') == '1'):
+            return 'C15/spdx-versionless-dropped'   # class predicate: everything the Spec with ToSPDX23's skip rule expects came back; ONLY the versionless / nameless purls are missing
         if fmt == 'spdx23-tag-value' and (st == 'read-err' or (st == 'ok' and tagvalue_text_block_class(case))):
             return 'C15/spdx-tag-value-supplier'
         if fmt == 'spdx23-yaml' and st == 'write-err' and yaml_control_char_class(case):
@@ -132,12 +146,17 @@ def run(ctx):
 
     def classify(case, fi, fm):
         t = case.split(' ')
+        judged['all'][t[2]] = judged['all'].get(t[2], 0) + 1
         return '%s %s st=%s' % (t[1], t[2], fi.get('st', fi.get('_')))
 
     lib.standard_stream(ctx, gen='c15gen', driver='drv_c15', gen_args=['-seed', str(ctx.seed), '-n', str(n), '-tier', ctx.tier],
                         compare_keys=['purls', 'extra'], nontrivial=nontrivial, oracle=oracle, classify=classify, finding_class=finding_class,
                         strict_known=False)  # the model does not mirror the two recorded codec defects (it answers as the Spec does), so the class is excused on the implementation's status
     ctx.extra['purl_types_seen'] = dict(sorted(types.items()))
+    ctx.extra['judged_positively_by_format'] = {f: '%d of %d' % (judged['positively'].get(f, 0), k) for f, k in sorted(judged['all'].items())}
+    ctx.extra['tag_value_share'] = ('spdx23-tag-value: %d of %d cases judged positively — the format never reads back on the unchanged code (known finding C15/spdx-tag-value-supplier), '
+                                    'so for this format the theorems\' codec hypothesis is false for every inventory and the stream only re-confirms the finding' % (
+                                        judged['positively'].get('spdx23-tag-value', 0), judged['all'].get('spdx23-tag-value', 0)))
     ctx.extra['explanation'] = ('KNOWN-FINDING lines: every spdx23-tag-value case fails at the reader (PackageSupplier: NOASSERTION: NOASSERTION), and spdx23-yaml cases whose exported '
                                 'strings contain DEL/C1/non-characters fail at the writer; all other cases of the five formats are checked strictly.')
     if not proofs_ok:
